@@ -91,4 +91,6 @@ def main(tier):
     import tailguard, earlypass
     rep.attempt(tailguard.check, rep, 'EC', {'ec_dot_prod'}, 30, 20)
     rep.attempt(earlypass.check, rep, 'EC', {'ec_dot_prod'}, 0)
+    import samecell
+    rep.attempt(samecell.check, rep, 'EC', {'ec_dot_prod'}, ['SRCARR[]'], ['DESTARR[]'], 130, typed=True)
     return rep.finish()
